@@ -76,12 +76,10 @@ def run(ctx):
     def in_abandon(n):
         return any(c[0] == 'arm' and hirq.pat_variant(c[1]['arms'][c[2]]['pat']) == 'LdapOp::Abandon' for c in hirq.conditions(L.context(n)))
     ab_rel = [r for r, rc in releases if in_abandon(r)]
-    ctx.add('K2.abandon-own-id-released', 'abandon arm', loc(req['body']),
-            any(hirq.strip_casts(L.origin(r['args'][0])) == own_id for r in ab_rel),
-            'the Abandon request\'s own message ID (never answered by the server) is not released')
-    ctx.add('K3.abandoned-id-released', 'abandon arm', loc(req['body']),
-            any(hirq.strip_casts(L.origin(r['args'][0])) == ab_payload for r in ab_rel),
-            'the abandoned operation\'s message ID is not released')
+    hir_k2 = any(hirq.strip_casts(L.origin(r['args'][0])) == own_id for r in ab_rel)
+    hir_k3 = any(hirq.strip_casts(L.origin(r['args'][0])) == ab_payload for r in ab_rel)
+    # (decided below on the enumerated paths of the arm, where a release spelled differently - e.g. one `retain` that rejects both
+    # IDs - is read as the removals it amounts to; the syntactic reading above is kept as the quick answer when it applies)
     # K2 / K3 on the enumerated paths of the request arm: whenever an Abandon was written to the socket, its own ID (which the
     # server never answers) is released, both routing entries of the abandoned ID are dropped, and the abandoned ID is released
     # at least when one of those entries existed
@@ -108,6 +106,12 @@ def run(ctx):
             ctx.add('K3.abandoned-id-released', 'paths|' + (sig or 'plain'), loc(req['body']), PAY in rel,
                     'the abandoned operation\'s message ID is not released on a path where its routing entry was dropped')
     ctx.floor('K2', 'Abandon paths of the request arm', n_ab, 1)
+    path_k2 = n_ab > 0 and all(o.ok for o in ctx.obls if o.rule == 'K2.abandon-own-id-released')
+    path_k3 = n_ab > 0 and all(o.ok for o in ctx.obls if o.rule == 'K3.abandoned-id-released')
+    ctx.add('K2.abandon-own-id-released', 'abandon arm', loc(req['body']), hir_k2 or path_k2,
+            'the Abandon request\'s own message ID (never answered by the server) is not released')
+    ctx.add('K3.abandoned-id-released', 'abandon arm', loc(req['body']), hir_k3 or path_k3,
+            'the abandoned operation\'s message ID is not released')
     for w in ('result', 'search'):
         ok = any(in_abandon(u) and ww == w and hirq.strip_casts(L.origin(u['args'][0])) == ab_payload for u, uc, ww in unroutes)
         ctx.add('K3.abandon-unroutes', w, loc(req['body']), ok,
